@@ -31,7 +31,7 @@ def label(nodes, i):
     return LABEL[k] % i if k == 'own' else LABEL[k]
 
 
-TEMPLATES = {'default': None, 'title': 'index [$title, sect$num(4)]', 'single': 'only'}
+TEMPLATES = {'default': None, 'title': 'index [$title, sect$num(4)]', 'single': 'only', 'plain': 'index sect$num(4)'}
 CLASSES = {
     'article': (['section', 'subsection', 'subsubsection'], 0),
     'book': (['chapter', 'section', 'subsection'], -1),
@@ -80,7 +80,7 @@ def name_of(n, variant=None):
     raise MachineryError('unknown name %r' % (n,))
 
 
-def concretise(beh, cls='article'):
+def concretise(beh, cls='article', samefn=False):
     cmds, _ = CLASSES[cls]
     refs = beh.get('refs') or []
     out = ['\\documentclass{%s}\n\\begin{document}\n' % cls]
@@ -88,7 +88,7 @@ def concretise(beh, cls='article'):
     def body(i, fn):
         s = 'bb%d text' % i
         if fn:
-            s += '\\footnote{ff%d note}' % i
+            s += '\\footnote{ff%d note}' % (999 if samefn else i)       # samefn: every footnote has the same wording
         for k, r in enumerate(refs):
             if r['from'] == i:
                 s += ' see rr%d \\ref{%s} here' % (k + 1, label(beh['nodes'], r['to']))
@@ -161,13 +161,14 @@ def render(src, ov, renderer='HTML5', keep=False):
 
 def replay_one(job):
     beh, cls, renderer, twice, variant = job
-    src = concretise(beh, cls)
+    src = concretise(beh, cls, samefn=(variant == 'samefn'))
     ov = overrides(beh, cls, variant)
     try:
         files = render(src, ov, renderer)
     except Exception as ex:
         return 'raise', 'rendering raised %s: %s\n%s' % (type(ex).__name__, ex, src)
-    want = dict((name_of(f['name'], variant) + '.html', [list(m) for m in f['content']]) for f in beh['files'])
+    want = dict((name_of(f['name'], variant) + '.html', [[m[0], 999] if (variant == 'samefn' and m[0] == 'f') else list(m) for m in f['content']])
+                for f in beh['files'])
     ctx = '(split-level %s, template %s, class %s, renderer %s, variant %s)\n%s' % (ov[('files', 'split-level')], ov.get(('files', 'filename'), 'default'), cls, renderer, variant, src)
     if sorted(files) != sorted(want):
         kind = 'names'
@@ -203,7 +204,7 @@ def replay_one(job):
 
 def behaviours(chk, tier, seed, maxrefs=0, labkinds='"none", "own", "index", "sect1"', refkinds=None):
     """exhaustive check of the design at the larger bound, behaviours printed at the smaller bound and by simulation beyond it"""
-    alltm = '"default", "title", "single"'
+    alltm = '"default", "title", "plain", "single"'
     cfg = CFG if refkinds is None else CFG.replace('RefKinds = {"sec"}', 'RefKinds = {%s}' % refkinds)
     noemit = cfg.replace('INVARIANT Emit\n', '')
     big, small = (3, 2) if tier == 'quick' else (4, 3)
@@ -271,6 +272,10 @@ def run(chk):
     for b in ttl[:nx]:
         jobs.append((b, 'article', 'HTML5', False, 'badchars'))
         jobs.append((b, 'article', 'HTML5', False, 'title1'))
+    fns = [b for b in small + big if sum(1 for n in b['nodes'] if n['fn']) + (1 if b['docfn'] else 0) >= 2]
+    rnd.shuffle(fns)
+    for b in fns[:nx]:
+        jobs.append((b, 'article', 'HTML5', False, 'samefn'))
     dfl = [b for b in small + big if b['tmpl'] == 'default' and len(b['files']) > 1 and any(n['lab'] in ('index', 'sect1') for n in b['nodes'])]
     rnd.shuffle(dfl)
     for b in dfl[:nx]:
